@@ -1092,7 +1092,38 @@ func doRenderLine(out *Out, f []string) {
 	seg := newSeg()
 	p := buildRaw(seg, f[2])
 	must(seg.Message().SetRoot(p))
-	doRender(out, "replay", id, f[2], f[3], p.Struct(), nil)
+	st := p.Struct()
+	floatTable = map[string]string{}
+	doRender(out, "replay", id, f[2], f[3], st, accByType(id, st))
+}
+
+// accByType: the accessor walker for a struct of a known aircraftlib type (replays).
+func accByType(id uint64, s capnp.Struct) func() string {
+	switch id {
+	case air.Z_TypeID:
+		return func() string { return accZ(air.Z{Struct: s}) }
+	case air.Zdate_TypeID:
+		return func() string { return accZdate(air.Zdate{Struct: s}) }
+	case air.Zdata_TypeID:
+		return func() string { return accZdata(air.Zdata{Struct: s}) }
+	case air.PlaneBase_TypeID:
+		return func() string { return accPlaneBase(air.PlaneBase{Struct: s}) }
+	case air.Aircraft_TypeID:
+		return func() string { return accAircraft(air.Aircraft{Struct: s}) }
+	case air.Regression_TypeID:
+		return func() string { return accRegression(air.Regression{Struct: s}) }
+	case air.Counter_TypeID:
+		return func() string { return accCounter(air.Counter{Struct: s}) }
+	case air.Defaults_TypeID:
+		return func() string { return accDefaults(air.Defaults{Struct: s}) }
+	case air.StackingRoot_TypeID:
+		return func() string { return accStackingRoot(air.StackingRoot{Struct: s}) }
+	case air.VoidUnion_TypeID:
+		return func() string { return accVoidUnion(air.VoidUnion{Struct: s}) }
+	case air.Zjob_TypeID:
+		return func() string { return accZjob(air.Zjob{Struct: s}) }
+	}
+	return nil
 }
 
 func genRender(out *Out, r *Rand, tier string) {
